@@ -65,6 +65,18 @@ func vMakeAtomOperand(kind int, tag string) struct2 {
 	case 6: // call with several arguments, one of them a sub-expression
 		t, b := vLit(tag+"s", 1, 1, vLitAlpha)
 		return struct2{src: vWord(tag+"f", "substr") + "(" + vWord(tag+"a", "key") + " + " + t + ", 0, 1 + 2)", canon: "substr((KEY + '" + string(b) + "'), 0, (1 + 2))"}
+	case 8: // float literal with a fraction (whole-valued ones among them)
+		t := []string{"2.0", "0.5", "7.25", "10.00"}[vChoose(tag+"f", 4)]
+		return struct2{src: t, canon: t}
+	case 9: // Boolean literal
+		w := "true"
+		if vNondetBool(tag + "b") {
+			w = "false"
+		}
+		return struct2{src: vWord(tag, w), canon: w}
+	case 10: // float literal in exponent form
+		i := vChoose(tag+"f", 3)
+		return struct2{src: []string{"1e3", "5E0", "2.5e1"}[i], canon: []string{"1e3", "5e0", "2.5e1"}[i]}
 	case 7: // nested calls and a negated argument
 		return struct2{src: vWord(tag+"f", "upper") + "(" + vWord(tag+"g", "lower") + "(" + vWord(tag+"a", "key") + "))", canon: "upper(lower(KEY))"}
 	}
@@ -72,6 +84,8 @@ func vMakeAtomOperand(kind int, tag string) struct2 {
 }
 
 var vC15LitMin, vC15NumMax = 0, 2
+
+const vC15Kinds = 11
 
 // reference parser: precedence climbing over the operand/operator arrays
 type vRefParser struct {
@@ -133,9 +147,9 @@ func VH_C15(m, variant, opsel int) {
 	ops := make([]int, 0, m+2)
 	operands := make([]struct2, 0, m+3)
 	nextOperand := func(i int) struct2 {
-		kind := (i * 3) % 8
+		kind := (i * 3) % vC15Kinds
 		if variant == 0 {
-			kind = vChoose("kind"+vItoa(i), 8)
+			kind = vChoose("kind"+vItoa(i), vC15Kinds)
 		}
 		return vMakeAtomOperand(kind, "x"+vItoa(i))
 	}
@@ -215,5 +229,65 @@ func VH_C15(m, variant, opsel int) {
 	e2, err := vParseExprText(got)
 	vAssert(err == nil, "C15/printed-form-rejected")
 	vAssert(e2.String() == got, "C15/printed-form-parses-to-a-different-tree")
+	vAssert(vTreeEq(e, e2), "C15/printed-form-parses-to-a-different-tree")
 	vCover("parsed")
+}
+
+// vTreeEq: structural equality of two expression trees (node types and payloads, positions ignored).
+func vTreeEq(a, b Expression) bool {
+	switch x := a.(type) {
+	case *BinaryOpExpr:
+		y, ok := b.(*BinaryOpExpr)
+		return ok && x.Op == y.Op && vTreeEq(x.Left, y.Left) && vTreeEq(x.Right, y.Right)
+	case *FieldExpr:
+		y, ok := b.(*FieldExpr)
+		return ok && x.Field == y.Field
+	case *StringExpr:
+		y, ok := b.(*StringExpr)
+		return ok && x.Data == y.Data
+	case *NotExpr:
+		y, ok := b.(*NotExpr)
+		return ok && vTreeEq(x.Right, y.Right)
+	case *FunctionCallExpr:
+		y, ok := b.(*FunctionCallExpr)
+		if !ok || len(x.Args) != len(y.Args) || !vTreeEq(x.Name, y.Name) {
+			return false
+		}
+		for i := range x.Args {
+			if !vTreeEq(x.Args[i], y.Args[i]) {
+				return false
+			}
+		}
+		return true
+	case *NameExpr:
+		y, ok := b.(*NameExpr)
+		return ok && x.Data == y.Data
+	case *FieldReferenceExpr:
+		y, ok := b.(*FieldReferenceExpr)
+		return ok && x.Name.Data == y.Name.Data
+	case *NumberExpr:
+		y, ok := b.(*NumberExpr)
+		return ok && x.Data == y.Data && x.Int == y.Int
+	case *FloatExpr:
+		y, ok := b.(*FloatExpr)
+		return ok && x.Data == y.Data && (x.Float == y.Float || x.Float != x.Float)
+	case *BoolExpr:
+		y, ok := b.(*BoolExpr)
+		return ok && x.Bool == y.Bool
+	case *ListExpr:
+		y, ok := b.(*ListExpr)
+		if !ok || len(x.List) != len(y.List) {
+			return false
+		}
+		for i := range x.List {
+			if !vTreeEq(x.List[i], y.List[i]) {
+				return false
+			}
+		}
+		return true
+	case *FieldAccessExpr:
+		y, ok := b.(*FieldAccessExpr)
+		return ok && vTreeEq(x.Left, y.Left) && vTreeEq(x.FieldName, y.FieldName)
+	}
+	return false
 }
